@@ -355,12 +355,36 @@ func freeVarNamed(name string) eng.VM {
 		if eng.Param(name)(v) {
 			return true
 		}
-		v = eng.Strip(v)
+		orig := eng.Strip(v)
+		v = orig
 		if u, ok := v.(*ssa.UnOp); ok && u.Op == token.MUL {
 			v = u.X
 		}
-		fv, ok := v.(*ssa.FreeVar)
-		return ok && fv.Name() == name
+		if fv, ok := v.(*ssa.FreeVar); ok {
+			return fv.Name() == name
+		}
+		// captured parameters bundled into a struct: the field of that name of a captured variable / parameter
+		if f, base := eng.FieldRead(orig); f != nil && f.Name() == name && base != nil {
+			b := base
+			if u, ok := b.(*ssa.UnOp); ok && u.Op == token.MUL {
+				b = u.X
+			}
+			switch x := b.(type) {
+			case *ssa.FreeVar:
+				for _, other := range x.Parent().FreeVars {
+					if other.Name() == name {
+						return false
+					}
+				}
+				return true
+			case *ssa.Parameter:
+				return true
+			}
+			if _, isP := eng.Strip(base).(*ssa.Parameter); isP {
+				return true
+			}
+		}
+		return false
 	}
 }
 
